@@ -166,6 +166,7 @@ def jobs(tier, seed):
         "2feat": ([F([S(1, tags=["t1"])], tags=["t0"]), F([S(1)])], {"stop": "sym", "dry_run": "sym", "out_dom": D}),
         "select": ([F([S(1, tags=["t1"]), S(1), R([S(1)], tags=["tr"])])], {"select": True, "out_dom": {"*": [0, 1]}}),
         "skipstep": ([F([S(2, tags=["t1"]), S(1)])], {"out_dom": {"*": [5, 6]}}),
+        "hook-skip": ([F([S(1, tags=["t1"]), R([S(1)], tags=["tr"])], tags=["t0"])], {"out_dom": {"*": [0, 1]}, "undef": False, "hook_skip_scenario": True}),
     }
     if tier == "thorough":
         shapes.update({
